@@ -1965,7 +1965,11 @@ class Population:
             # (but it exists as a fallback to ensure that any inconsistencies result in the error being raised)
             raise BadInitialization(f"Initialization error\n{error_msg}")
 
-        # Otherwise, insert the values
+        # Otherwise, insert the values. Small negative values (within the tolerance) are clipped to zero, so
+        # check that the clipped values - the ones the simulation actually starts from - still match the databook
+        if np.any(np.abs(np.matmul(A, np.maximum(x, 0.0)).ravel() - b.ravel()) > model_settings["tolerance"]):
+            raise BadInitialization("Characteristics failed to meet tolerances\nafter setting slightly negative compartment sizes to zero")
+
         for i, c in enumerate(comps):
             c[0] = max(0.0, x[i])
 
